@@ -267,8 +267,9 @@ Section Resume.
         destruct (w_v1 o); [discriminate|]. destruct (negb ct); [inversion Ep; et|].
         destruct (read_v2hdr _) as [[h r]|]; [|discriminate].
         destruct (negb _); inversion Ep; et. }
-    destruct (read_header hdrdec (w_maxh o) _) as [[[[hroots hver] rest'] used']|e'] eqn:E2;
-      [|inversion H; subst; eapply read_header_err_total; eassumption].
+    destruct (read_header hdrdec (w_maxh o) _) as [[[[hroots hver] rest'] used']|e'] eqn:E2.
+    2:{ apply read_header_err_total in E2. destruct E2 as (E2a & E2b).
+        destruct e'; inversion H; subst; try et; exfalso; ((apply E2a; reflexivity) || (apply E2b; reflexivity)). }
     destruct (negb (header_matches hroots hver roots)); [inversion H; et|].
     match type of H with context [let '(_, _) := ?p in _] => destruct p as [dv2 ok2] end.
     destruct (negb ok2); [inversion H; et|].
